@@ -43,7 +43,7 @@ ASSUMPTIONS = [
     "values differing only as 1 vs 1.0 and nested key order are outside the quantifier and not generated",
 ]
 FLOORS = {"keys_ok": (1500, 30000), "restrict_checked": (1200, 25000), "outside_perturbations": (2500, 50000),
-          "inside_perturbations": (800, 15000), "soundness_pairs": (300, 6000), "hashseed_fingerprints": (200, 1000)}
+          "inside_perturbations": (800, 15000), "soundness_pairs": (300, 6000), "hashseed_fingerprints": (200, 1000), "dangling_dispatch_cases": (150, 150)}
 SHARDS_QUICK = 4
 
 
@@ -275,10 +275,51 @@ def hashseed_stability(ctx, corpus):
         shutil.rmtree(tmp, ignore_errors=True)
 
 
+def dangling_dispatch(ctx):
+    """A switch / overloaded dataset takes its default because the dispatch cannot be evaluated - not because the
+    dispatch key is absent but because what it holds refers to an absent option.  The present keys the dispatch
+    read decide that (drop them and the dispatch option's own default selects another branch), so they belong to
+    keys().  Dictionaries here are deliberately NOT closed."""
+    O, C = directed.O, directed.C
+    table = [["x", O("B", dk="const", dv="b-dflt")], ["y", C("why")]]
+    programs = {
+        "switch-option-default": directed.prog({"k": "switch", "disp": O("D", dk="const", dv="x"), "table": table, "default": O("C", dk="const", dv="c-dflt")}),
+        "switch-section-option-default": directed.prog({"k": "cached", "spec": {"k": "switch", "disp": O("S.X", dk="const", dv="y"), "table": table, "default": O("C", dk="const", dv="c-dflt")}}),
+        "switch-template-dispatch": directed.prog({"k": "switch", "disp": {"k": "tmpl", "text": "{D}", "params": []}, "table": table, "default": O("C", dk="const", dv="c-dflt")}),
+        "switch-option-template-default": directed.prog({"k": "switch", "disp": O("E", dk="tmpl", dv="{D}"), "table": table, "default": O("C", dk="const", dv="c-dflt")}),
+        "dataset-dispatch-option-default": directed.prog(directed.DS(1), d1={"args": [["c", O("C", dk="const", dv="c-dflt")]], "dispatch": O("D", dk="const", dv="x"),
+                                                                           "overloads": [["x", {"args": [["b", O("B", dk="const", dv="b-dflt")]]}], ["y", {"args": []}]]}),
+        "consumer-of-dispatching-dataset": directed.prog(directed.DS(2), d1={"args": [["c", O("C", dk="const", dv="c-dflt")]], "dispatch": O("S.X", dk="const", dv="x"),
+                                                                           "overloads": [["x", {"args": [["b", O("B", dk="const", dv="b-dflt")]]}], ["y", {"args": []}]]},
+                                                         d2={"args": [["inner", directed.DS(1)], ["a", O("T.X", dk="const", dv=0)]]}),
+    }
+    for name, program in programs.items():
+        G, seen = build(program), {}
+        for d in ("{A}", "q{A}", "{S.Y}", "x", "y", U.ABSENT):
+            for a in (U.ABSENT, "x", "y"):
+                for extra in ({}, {"B": 1}, {"C": 2, "B": 1}):
+                    o = dict(extra)
+                    sec = {}
+                    if d is not U.ABSENT:
+                        o["D"] = d
+                        sec["X"] = d
+                    if a is not U.ABSENT:
+                        o["A"] = a
+                        sec["Y"] = a
+                    if sec:
+                        o["S"] = sec
+                    if not U._acyclic(o):
+                        continue
+                    ctx.count("dangling_dispatch_cases")
+                    check_case(ctx, program, o, G, seen, [], tag=f"dangling-dispatch:{name}")
+
+
 def run(ctx):
     rng = ctx.rng
     dicts = directed.dictionaries()
     corpus = []
+    if ctx.shard == 0:
+        dangling_dispatch(ctx)
     for i, p in enumerate(directed.programs()):
         if i % ctx.shards != ctx.shard:
             continue
